@@ -7,7 +7,7 @@ import framework as fw
 import engine_runner as er
 from gen import SchemaGen, DocGen, print_sdl
 from model import Model
-from violations import Catalogue, subscription_violations, LEGAL_UNUSUAL
+from violations import Catalogue, subscription_violations, LEGAL_UNUSUAL, overlapping_abstract_spreads, impossible_reuse
 
 DEVIATION_KF = {"field-selections-on-objects-interfaces-and-unions-types": "KF-C07-3", "fragment-spread-is-possible": "KF-C07-4",
                 "all-variable-usages-are-allowed": "KF-C07-5", "single-root-field": "KF-C06-2"}
@@ -77,6 +77,9 @@ async def explore(pid, tier, seed, m):
                 for intent, q2 in cat.all(q):
                     docs.append((intent, q2, ops[k][1], variables))
         for q in LEGAL_UNUSUAL: docs.append(("legal-unusual", q, "A" if q.startswith("query A") else None, None))
+        for q in overlapping_abstract_spreads(sg, rng): docs.append(("legal-unusual", q, None, None))
+        if pid == "C07":
+            for q in impossible_reuse(sg, rng): docs.append(("spread-impossible-reuse", q, None, None))
         for intent, q in subscription_violations(sg, rng): docs.append((intent, q, "B" if "subscription B" in q else None, None))
         for intent, q, opn, variables in docs:
             try:
